@@ -788,18 +788,6 @@ func (e *ConditionalExpr) Value(ctx *hcl.EvalContext) (cty.Value, hcl.Diagnostic
 
 	condResult, condDiags := e.Condition.Value(ctx)
 	diags = append(diags, condDiags...)
-	if condResult.IsNull() {
-		diags = append(diags, &hcl.Diagnostic{
-			Severity:    hcl.DiagError,
-			Summary:     "Null condition",
-			Detail:      "The condition value is null. Conditions must either be true or false.",
-			Subject:     e.Condition.Range().Ptr(),
-			Context:     &e.SrcRange,
-			Expression:  e.Condition,
-			EvalContext: ctx,
-		})
-		return cty.UnknownVal(resultType), diags
-	}
 
 	// Now that we have all three values, collect all the marks for the result.
 	// Since it's possible that a condition value could be unknown, and the
@@ -810,6 +798,19 @@ func (e *ConditionalExpr) Value(ctx *hcl.EvalContext) (cty.Value, hcl.Diagnostic
 	falseResult, falseResultMarks := falseResult.Unmark()
 	var resMarks []cty.ValueMarks
 	resMarks = append(resMarks, condResultMarks, trueResultMarks, falseResultMarks)
+
+	if condResult.IsNull() {
+		diags = append(diags, &hcl.Diagnostic{
+			Severity:    hcl.DiagError,
+			Summary:     "Null condition",
+			Detail:      "The condition value is null. Conditions must either be true or false.",
+			Subject:     e.Condition.Range().Ptr(),
+			Context:     &e.SrcRange,
+			Expression:  e.Condition,
+			EvalContext: ctx,
+		})
+		return cty.UnknownVal(resultType).WithMarks(resMarks...), diags
+	}
 
 	if !condResult.IsKnown() {
 		trueRange := trueResult.Range()
@@ -904,7 +905,7 @@ func (e *ConditionalExpr) Value(ctx *hcl.EvalContext) (cty.Value, hcl.Diagnostic
 			Expression:  e.Condition,
 			EvalContext: ctx,
 		})
-		return cty.UnknownVal(resultType), diags
+		return cty.UnknownVal(resultType).WithMarks(resMarks...), diags
 	}
 
 	if condResult.True() {
